@@ -42,6 +42,8 @@ def status_check(ex, prop=ID, sub=None):
     out = []
     r = ex.result
     if r is None:
+        if ex.aborted:
+            out.append(V(prop, "iteration-limit", "the solve performed more trial steps than iteration_limit=%r allows (stopped by the simulator's step cap after %d)" % (ex.params.iteration_limit, len(ex.trials)), sub, {"status": "none"}))
         return out
     prm = ex.params
     um = ex.problem.um
@@ -62,12 +64,16 @@ def status_check(ex, prop=ID, sub=None):
         out.append(V(prop, "iteration-limit", "IterationLimit without a limit", sub, ctx))
     if st == "TimeLimit":
         reads = ex.clock.reads
+        # the deadline is time_limit after the solve began: the reference origin is the solver's
+        # own timer start (a clock read made inside solve()), or, should the code not read the
+        # clock there, the virtual time at which solve() was called
         starts = [v for (w, v) in reads if is_timer_start(w)]
+        origin = starts[0] if starts else ex.t_begin
         ok = False
-        if starts and np.isfinite(prm.time_limit):
-            ok = any(is_timer_limit_read(w) and v - starts[0] >= prm.time_limit for (w, v) in reads)
+        if np.isfinite(prm.time_limit):
+            ok = any(v - origin >= prm.time_limit for (w, v) in reads)
         if not ok:
-            out.append(V(prop, "time-limit", "TimeLimit returned but no deadline check ever saw elapsed >= time_limit=%r" % (prm.time_limit,), sub, ctx))
+            out.append(V(prop, "time-limit", "TimeLimit returned but at most %r virtual seconds had passed since the solve began (time_limit=%r)" % (max([v for (_, v) in reads] + [origin]) - origin, prm.time_limit), sub, ctx))
     if st in ("LocallyInfeasible", "Unbounded"):
         rt = ex.ref_transform()
         wv, wc, wo = rt.wv, rt.wc, rt.wo
@@ -125,4 +131,4 @@ def case(world):
             keys.append("%s:%s:%s" % (ex.status, world["problem"]["family"], ex.traj_digest()[:12]))
         if np.isfinite(ex.params.time_limit):
             bump("finite_time_limit")
-    return {"violations": viol, "stats": stats, "keys": keys, "executions": 1, "sample": small_sample(world, {"outcome": ex.outcome, "clock_kind": {"tail": world["clock"].get("tail"), "nsteps": len(world["clock"].get("steps", []))}}), "virtual_seconds": ex.clock.t - 1000.0}
+    return {"violations": viol, "stats": stats, "keys": keys, "executions": 1, "sample": small_sample(world, {"outcome": ex.outcome, "clock_kind": {"tail": world["clock"].get("tail"), "nsteps": len(world["clock"].get("steps", []))}}), "virtual_seconds": ex.clock.t - ex.clock.t0}
